@@ -17,6 +17,7 @@ correspondence + property oracles (harness/cmd/c14, modelrun-c14):
 """
 import json
 import os
+import re
 from concurrent.futures import ThreadPoolExecutor
 
 import hv
@@ -26,6 +27,8 @@ K_POOL_WRITER = "pool-encoder-writer-survives-free"
 K_POOL_OFF = "pool-encoder-off-survives-free"
 K_DEC_SIMPLE = "decoder-reset-in-simple-mode-keeps-refer"
 K_PUBLISH = "struct-encoder-published-before-fields"
+K_DEC_PUBLISH = "struct-decoder-published-before-fields"
+N_WIDE = 40
 FIXED_FLAGS = "1111"     # Pool.all_fixed: the variant the headline theorems of Props/C14.v are stated for
 K_POOL_DECBUF = "pool-decoder-keeps-user-input-as-read-buffer"
 K_DEC_BUF = "decoder-resetreader-keeps-previous-input-as-buffer"
@@ -38,6 +41,8 @@ COQ_WITNESS = {
     K_PUBLISH: "C14_registry_linearizable_refuted / C14_registry_linearizable_refuted_mutual",
     K_POOL_DECBUF: "C14_reset_is_fresh_decoder_refuted / C14_pooled_decoder_buffer_leak / C14_pooled_decoder_hang",
     K_DEC_BUF: "C14_pooled_decoder_buffer_leak (same mechanism on a user-held decoder)",
+    K_DEC_PUBLISH: "old_registry_refuted_enclosing (Registry LTS without the lock = a lock that does not span publication and "
+                   "assignment); C14_registry_linearizable needs the locked LTS",
 }
 
 
@@ -718,6 +723,136 @@ def detect_variant():
     return v, flags
 
 
+def decoder_lock_structure():
+    """T1-style structural obligation for the DECODER side of the registry (the locked LTS of C14_registry_linearizable is
+    only the code if this holds): in newNamedStructDecoder the write lock is taken before the decoder is stored in
+    namedStructDecoderMap and is still held when decoder.fields is assigned; decodeField reads fields under RLock."""
+    body = func_body("io/struct_decoder.go", "func newNamedStructDecoder(")
+    problems = []
+    lock, store, assign = body.find(".Lock()"), body.find("registerNamedStructDecoder("), body.find(".fields =")
+    if min(lock, store, assign) < 0:
+        problems.append("newNamedStructDecoder: cannot find Lock(), registerNamedStructDecoder( and '.fields =' (unrecognised shape)")
+    else:
+        if not lock < store:
+            problems.append("the decoder is stored in namedStructDecoderMap before the write lock is taken")
+        if not store < assign:
+            problems.append("fields are assigned before the decoder is stored (unexpected order: the model publishes first)")
+        deferred = re.search(r"defer\s+\w+\.Unlock\(\)", body)
+        unlock = body.find(".Unlock()")
+        if deferred:
+            if not lock < deferred.start() < store:
+                problems.append("the deferred Unlock is not placed between Lock() and the publication")
+        elif unlock < 0 or unlock < assign:
+            problems.append("the write lock is released before decoder.fields is assigned")
+        if body.count(".Lock()") != 1 or body.count(".Unlock()") != 1:
+            problems.append("more than one Lock/Unlock in newNamedStructDecoder (the critical section may be split)")
+    rd = func_body("io/struct_decoder.go", "func (valdec *structDecoder) decodeField(")
+    rl, use, ru = rd.find(".RLock()"), rd.find(".fields["), rd.find(".RUnlock()")
+    if min(rl, use, ru) < 0 or not rl < use < ru:
+        problems.append("decodeField does not read valdec.fields between RLock() and RUnlock()")
+    return problems
+
+
+def run_decoder_first_use(ctx, exe):
+    """decoder-side first uses: goroutine A decodes into a fresh WIDE type WT (150 fields: the field map takes long to
+    build) while goroutines B decode into *WT, WO{In WT; P *WT} and []WT; one round per family, many families per
+    process; every decoded value must equal the one a single goroutine gets in another process.  Witness search."""
+    r = ctx.rng
+    quick = ctx.tier == "quick"
+    nproc, nfam = (3, 12) if quick else (12, 20)
+    hits = 0
+    for i in range(nproc):
+        fams = r.sample(range(N_WIDE), nfam)
+        simple = i % 2 == 0
+        delays = r.choice([[0, 0, 0, 2, 2, 2, 5, 5, 5, 10, 10, 10], [0, 1, 2, 3, 4, 6, 8, 12, 16], [0] * 9])
+        base = {"kind": "decrace", "families": fams, "seed": r.randint(1, 50), "simple": simple}
+        rc, solo, err = run_one_process(exe, dict(base, id=800000 + i, conc=False))
+        if solo is None:
+            ctx.report("harness-crash:decrace", "executor died (single goroutine, wide types): " + err[-300:],
+                       {"case": base, "failing_input": True})
+            continue
+        datas = [rd[:3] for rd in solo["rounds"]]
+        conc_case = dict(base, id=810000 + i, conc=True, datas=datas, delays_us=delays)
+        rc, conc, err = run_one_process(exe, conc_case)
+        if conc is None:
+            ctx.report("harness-crash:decrace", "executor died (concurrent first use of wide types): " + err[-300:],
+                       {"case": dict(conc_case, datas="<from the single-goroutine run>"), "failing_input": True})
+            continue
+        for f, (rs, rc_) in enumerate(zip(solo["rounds"], conc["rounds"])):
+            want = {"T": rs[3], "PT": rs[4], "O": rs[5], "S": rs[6]}
+            ctx.count_case("decrace|%d|%d|%s" % (fams[f], len(delays), simple), nontrivial=True)
+            for g, x in enumerate(rc_):
+                tag, got = x.split(":", 1)
+                ctx.bump("decrace_decodes", tag)
+                if got != want[tag]:
+                    hits += 1
+                    ctx.report(K_DEC_PUBLISH, "concurrent first use of the fresh type WT%03d: goroutine %d decoding into %s got %s ... ; a single "
+                               "goroutine gets %s ... (fields silently left at their zero values: decoded through a struct decoder whose "
+                               "field map was not assigned yet)" % (fams[f], g, {"T": "WT", "PT": "*WT", "O": "WO{In WT; P *WT}", "S": "[]WT"}[tag],
+                                                                   first_diff_snip(got, want[tag]), first_diff_snip(want[tag], got)),
+                               {"case": dict(conc_case, datas=[datas[f]], families=[fams[f]]), "goroutine": g, "dest": tag,
+                                "concurrent": got[:3000], "solo": want[tag][:3000], "failing_input": True, "statistical": True,
+                                "coq_witness": COQ_WITNESS[K_DEC_PUBLISH]})
+    ctx.note("decrace_processes", nproc)
+    ctx.note("decrace_mismatches_found_statistically", hits)
+
+
+def first_diff_snip(a, b):
+    i = next((k for k in range(min(len(a), len(b))) if a[k] != b[k]), min(len(a), len(b)))
+    return a[max(0, i - 30):i + 50]
+
+
+FORCED_DEC_BLOCKS = {"PT": False, "O": True, "S": True}   # see run_forced_decoder
+
+
+def decoder_hook_present():
+    try:
+        return "structdec.published" in open(os.path.join(hv.REPO, "io", "struct_decoder.go")).read()
+    except OSError:
+        return False
+
+
+def run_forced_decoder(ctx):
+    """goroutine A (first decode into WT) is held right after its decoder was published; goroutine B decodes into *WT, WO or []WT.
+    With the lock spanning publication and assignment: the first WT of a stream carries its class definition and is re-dispatched
+    through getValueDecoder (B builds its own decoder), every further WT goes through the handler captured at build time = A's
+    placeholder, where decodeField waits: B must be blocked for O and S (not for PT) and every value must be right."""
+    r = ctx.rng
+    disagreements = []
+    n = 3 if ctx.tier == "quick" else 12
+    for i in range(n):
+        bd = ("O", "S", "PT")[i % 3]
+        fam = r.randrange(N_WIDE)
+        simple = (i // 3) % 2 == 1
+        base = {"kind": "decrace", "families": [fam], "seed": 5, "simple": simple}
+        rc, solo, err = run_one_process("c14hook", dict(base, id=820000 + i, conc=False))
+        case = {"id": 830000 + i, "kind": "forceddec", "families": [fam], "bdest": bd, "simple": simple,
+                "datas": [solo["rounds"][0][:3]] if solo else []}
+        rc2, o, err2 = run_one_process("c14hook", case) if solo else (1, None, "")
+        if solo is None or o is None:
+            ctx.report("harness-crash:forceddec", "executor died in a forced decoder schedule: " + (err + err2)[-300:],
+                       {"case": case, "failing_input": True})
+            continue
+        if o.get("note"):
+            ctx.bump("forceddec_inconclusive", o["note"][:40])
+            continue
+        ctx.count_case("forceddec|%s|%d|%s" % (bd, fam, simple), nontrivial=True)
+        ctx.bump("forceddec", bd + (":reader-blocked" if o.get("blocked") else ""))
+        rs = solo["rounds"][0]
+        want = {"T": rs[3], "PT": rs[4], "O": rs[5], "S": rs[6]}
+        wrong = [x.split(":", 1)[0] for x in o["rounds"][0] if x.split(":", 1)[1] != want[x.split(":", 1)[0]]]
+        if wrong:
+            tag = wrong[0]
+            got = next(x for x in o["rounds"][0] if x.startswith(tag + ":")).split(":", 1)[1]
+            ctx.report(K_DEC_PUBLISH, "forced schedule: goroutine A held after publishing the decoder of WT%03d; goroutine B decoding into %s "
+                       "returned at once with %s ... ; alone it gets %s ..." % (fam, tag, first_diff_snip(got, want[tag]), first_diff_snip(want[tag], got)),
+                       {"case": case, "observation": {"blocked": o.get("blocked")}, "concurrent": got[:3000], "solo": want[tag][:3000],
+                        "failing_input": True, "replay_needs_hook": True, "coq_witness": COQ_WITNESS[K_DEC_PUBLISH]})
+        elif bool(o.get("blocked")) != FORCED_DEC_BLOCKS[bd]:
+            disagreements.append((case, o, 0, "reader-blocked=%s" % FORCED_DEC_BLOCKS[bd], "reader-blocked=%s" % bool(o.get("blocked"))))
+    return disagreements
+
+
 def hook_present():
     p = os.path.join(hv.REPO, "io", "verif_on.go")
     try:
@@ -901,6 +1036,8 @@ def run(ctx):
     if hook:
         build_hooked()
     corpus_cases(ctx, hook)
+    structure = decoder_lock_structure()
+    ctx.note("decoder_lock_structure", structure or "write lock spans publication and assignment; decodeField reads under RLock")
 
     cases = gen_eseq(ctx, 700 if quick else 6000)
     cases, byid = run_cases(ctx, "c14", cases, "eseq")
@@ -918,6 +1055,7 @@ def run(ctx):
     disagreements += [("scribble",) + d for d in eval_scribble(ctx, cases, byid, ml)]
 
     run_races(ctx, "c14")
+    run_decoder_first_use(ctx, "c14")
     if not quick:
         try:
             hv.build_harness("c14", race=True)
@@ -941,13 +1079,28 @@ def run(ctx):
     else:
         ctx.note("forced_note", "the tree under test has no yield hook in io/ (hooks/c14-io.patch, /repo 5f1121c): the three schedules "
                  "that broke the unlocked registry are not forced on the implementation; only the statistical race search looks at it")
+    if hook and decoder_hook_present():
+        disagreements += [("forceddec",) + d for d in run_forced_decoder(ctx)]
+    else:
+        ctx.note("forceddec_note", "no yield point in newNamedStructDecoder (hooks/c14-io-decoder.patch): the decoder-side schedule is "
+                 "not forced; structural inspection and the statistical race family cover it")
 
     ctx.note("rule", "eseq/dseq: seeded random sessions (2-6 uses, 2-9 operations each) over pooled and user-held coders, modes, "
              "failing values/inputs, explicit Reset/ResetBuffer/Writer/options, plus the directed histories of the refutation theorems; "
              "non-trivial = at least one use received a previously released coder from the real pool. scribble: exhaustive "
              "(destination type x wire form) cells x {simple, ref} x {slice, Formatter, reader, 1-byte reader, 7-byte reader}; "
              "non-trivial = the decoded value holds byte data. viewapi: every safe and documented-unsafe buffer entry point. "
-             "race: fresh-type scenarios, one process each. forced (with hook): both witness shapes. distinct by full case text")
+             "race: fresh-type scenarios, one process each. decrace: decoder-side first use of wide (150-field) fresh types, A into WT while "
+             "B into *WT / WO{In WT; P *WT} / []WT, one round per family, 12-20 families per process. forced / forceddec (with the hooks): "
+             "the three encoder schedules and the decoder schedule. distinct by full case text")
+    if structure:
+        found = any(v[0] == K_DEC_PUBLISH for v in ctx.violations)
+        ctx.report("structure:decoder-lock-does-not-span-publication",
+                   "io/struct_decoder.go: " + "; ".join(structure) + ". C14_registry_linearizable is proved for the LOCKED machine (reader "
+                   "blocks while the coder is published and unassigned); with this critical section the code is the UNLOCKED machine, refuted "
+                   "by old_registry_refuted_enclosing" + (" (witness on the implementation: see %s)" % K_DEC_PUBLISH if found else ""),
+                   {"failing_input": False, "correspondence": "structure of newNamedStructDecoder / decodeField vs Registry.step locked = true",
+                    "problems": structure})
     ctx.note("exhaustive", False)
     ctx.note("disagreeing_cases", len(disagreements))
     ctx.note("traces_validated_against_impl", ctx.cov["evaluations"] - len(disagreements))
@@ -960,7 +1113,8 @@ def run(ctx):
                     "correspondence": {"eseq": "Pool.enc_step vs io.Encoder/io.GetEncoder/io.FreeEncoder",
                                        "dseq": "Pool.dec_step vs io.Decoder/io.GetDecoder/io.FreeDecoder",
                                        "scribble": "Pool.own_decode / view_api_own vs the aliasing observed after overwriting the input",
-                                       "forced": "Registry.step vs the struct writes of io.Marshal under the forced schedule"}[kind],
+                                       "forced": "Registry.step vs the struct writes of io.Marshal under the forced schedule",
+                                       "forceddec": "locked Registry.step (reader blocks) vs io.Unmarshal under the forced decoder schedule"}[kind],
                     "disagreeing_cases": len(disagreements)})
     elif disagreements:
         kind, c, o, k, model, seen = disagreements[0]
